@@ -2,7 +2,7 @@ package main
 
 // C15 — quoted text survives parsing and expansion unchanged.
 //
-// Space: all strings ≤ N over 18 significant characters × 4 quoting styles ×
+// Space: all strings ≤ N over 20 significant characters × 4 quoting styles ×
 // 6 expansion modes × adversarial environments (IFS made of the alphabet's
 // characters, HOME set, positional parameters set, a working directory that
 // contains files named like the strings).  Oracle: exactly one field equal
@@ -29,7 +29,7 @@ type c15Case struct {
 	Env   string `json:"env"`
 }
 
-var c15Alpha = []rune("a*?[]\\'\"$`~ \n#=é/.")
+var c15Alpha = []rune("a*?[]\\'\"$`~ \n#=é/.\r\t")
 
 func c15Quote(s, style string) (string, bool) {
 	var b strings.Builder
